@@ -8,13 +8,15 @@ import json, os, re, shutil, subprocess, sys, time
 VERIF = os.path.dirname(os.path.dirname(os.path.abspath(__file__)))
 pid, mk = sys.argv[1], sys.argv[2]
 extra = sys.argv[3:]
-src = "/tmp/mut/%s-out" % pid
+BASE = os.environ.get("SEEDBASE", "/tmp/mut")
+TAG = os.environ.get("SEEDTAG", "")
+src = "%s/%s-out" % (BASE, pid)
 diff, demo = "%s/%s.diff" % (src, mk), "%s/%s_demo.rs" % (src, mk)
-out = os.path.join(VERIF, "seeded", "%s-%s" % (pid, mk))
+out = os.path.join(VERIF, "seeded", "%s-%s%s" % (pid, TAG, mk))
 os.makedirs(out, exist_ok=True)
 shutil.copy(diff, os.path.join(out, "patch.diff"))
 shutil.copy(demo, os.path.join(out, "demo.rs"))
-c = subprocess.run([os.path.join(VERIF, "tools/seed_confirm.sh"), "/tmp/mut/" + pid, diff, demo], stdout=subprocess.PIPE, stderr=subprocess.STDOUT, text=True).stdout
+c = subprocess.run([os.path.join(VERIF, "tools/seed_confirm.sh"), BASE + "/" + pid, diff, demo], stdout=subprocess.PIPE, stderr=subprocess.STDOUT, text=True).stdout
 print(c.strip())
 confirmed = all(("%d." % i) in c and re.search(r"%d\. .*: yes" % i, c) for i in (1, 2, 3))
 t = subprocess.run([os.path.join(VERIF, "tools/seed_try.sh"), diff, pid] + extra, stdout=subprocess.PIPE, stderr=subprocess.STDOUT, text=True).stdout
@@ -33,7 +35,7 @@ try:
 except Exception:
     pass
 meta = {"property": pid, "mutation": mk, "confirmed_by_me": confirmed, "confirmation_log": c.strip().splitlines(),
-        "what_i_ran": ["tools/seed_confirm.sh /tmp/mut/%s %s %s  (scratch worktree: demo on original, existing suite with change, demo with change)" % (pid, diff, demo),
+        "what_i_ran": ["tools/seed_confirm.sh <scratch worktree of %s> %s %s  (scratch worktree: demo on original, existing suite with change, demo with change)" % (pid, diff, demo),
                        "tools/seed_try.sh %s %s %s  (git -C /repo apply; bin/vcheck <id> --tier quick; git -C /repo checkout -- .)" % (diff, pid, " ".join(extra))],
         "verdicts_quick": verdicts, "recorded_at": time.strftime("%Y-%m-%d %H:%M:%S"),
         "needs_to_manifest_and_notes": notes[:6000]}
